@@ -160,6 +160,32 @@ Example ex_r1_plan_row_only_leaves_running :
   running_rows (persist [ex_aged] (writes_aged (age_out ex_stamp ex_aged))) = 0.
 Proof. vm_compute. split; reflexivity. Qed.
 
+(* a Vault whose search index still lists two finished plans as Running (storage.Recovery contract):
+   ex_done (finished long ago) and ex_done_recent (finished 500 ticks ago) *)
+Definition ex_done_recent : plan :=
+  mk_plan 70 (st Completed 9000 9500) FRUnknown None None
+    [mk_blk 71 (st Completed 9000 9500) None None [mk_seq 72 (st Completed 9000 9500) [mk_act 73 None (st Completed 9000 9500)]]].
+
+Definition ex_vault : vault := {| v_plans := ex_store ++ [ex_done_recent]; v_stale := [20%N; 70%N] |}.
+
+Example ex_vault_keys : keys_unique (v_plans ex_vault).
+Proof. apply nodupb_sound. vm_compute. reflexivity. Qed.
+
+(* coercion.New repairs the index first: the finished plans are neither candidates nor touched *)
+Example ex_vault_repaired_first :
+  open_workstream ex_now ex_stamp ex_maxage true true ex_vault =
+  ([ex_fresh; ex_done; close_plan ex_stamp ex_aged; ex_live; close_plan ex_stamp ex_zero; ex_retry; ex_done_recent],
+   [40%N; 60%N]).
+Proof. vm_compute. reflexivity. Qed.
+
+(* C11-d (Recovery() only after execute.New): the finished plans reach the state chain; the old one is
+   rewritten Failed / ExceedRecovery, the recent one is handed to runPlan and executed again *)
+Example ex_vault_unrepaired_refutes :
+  snd (open_workstream_late ex_now ex_stamp ex_maxage true ex_vault) = [40%N; 60%N; 70%N] /\
+  nth 1 (fst (open_workstream_late ex_now ex_stamp ex_maxage true ex_vault)) ex_fresh = close_plan ex_stamp ex_done /\
+  close_plan ex_stamp ex_done <> ex_done.
+Proof. vm_compute. repeat split. discriminate. Qed.
+
 (* the executable twins used by the monitor *)
 Example ex_monitor_twins :
   is_staleb ex_now ex_maxage ex_aged = true /\ is_staleb ex_now ex_maxage ex_live = false /\
